@@ -175,6 +175,7 @@ def _corruption_control(recs, wd):
     if r:
         r["evs"][n]["r"]["proj"][1]["h"] = {"t": "H", "id": 98}
         bad.append((r, "HashRespectsEq|HashStable"))
+    base = [r["id"] for r, _ in bad]
     for k, (r, _) in enumerate(bad):
         r["id"] = k
     shards = kit.write_shards([b[0] for b in bad], wd / "corrupt", "c01bad", 1000)
@@ -188,7 +189,7 @@ def _corruption_control(recs, wd):
             errs.append(f"corrupted trace {k}: expected {want}, judge said {got.get(k)}")
     if len(bad) < 4:
         errs.append(f"only {len(bad)} corruptible traces found")
-    return res, errs, st, tr
+    return res, errs, st, tr, base
 
 
 def _nontrivial(case):
@@ -242,7 +243,13 @@ def run(tier, seed, out):
         out.transitions += tr
         out.traces += len(recs)
         nfail = _classify(recs, cases, verdicts, out)
-        corr, cerrs, st2, tr2 = corr_f.result()
+        corr, cerrs, st2, tr2, base = corr_f.result()
+        accepted = {v["id"] for v in verdicts if isinstance(v, dict) and v.get("v") == "OK"}
+        if not set(base) <= accepted:
+            # the control ran in parallel with the judge and happened to corrupt a trace the
+            # judge did not accept in the first place: redo it on accepted traces only
+            corr, cerrs, st2, tr2, base = _corruption_control(
+                [r for r in recs if r["id"] in accepted], wd)
         out.states += st2
         out.transitions += tr2
         side, errs = side_f.result()
